@@ -771,3 +771,13 @@ CUSTOM_MAPS += [
     {':--x': ':--y :--z', ':--y': 'div', ':--z': 'p'},
     {':--x': ':--y :--z', ':--y': 'ul', ':--z': 'li'},
 ]
+
+
+# type / attribute selectors whose letter case matters: HTML trees fold names, XML trees do not - used on runs that
+# hold both kinds of document so that one compiled selector meets both
+CASE_POOL = ['Item', 'item', 'ITEM', 'DIV', 'div', 'Div', 'P', 'p', 'Row', 'row', '[K]', '[k]', '[ID]', '[id]', 'Input',
+             'INPUT:checked', 'A[href]', 'a[HREF]', 'Item > P', 'DIV P', 'x|Item', 'x|item']
+
+# what a second thread may ask about a parentless fragment while a first one evaluates :nth-* on its root
+DETACHED_POOL = [':root', ':root > *', '* > p', '* p', 'p:not(* > p)', ':root:first-child', ':first-child', ':only-child',
+                 ':nth-child(1)', ':nth-last-child(1) > *', '*', ':not(:root)', ':scope > *', ':root:nth-of-type(1) *']
